@@ -21,4 +21,30 @@ PROPS = {
         "explanation": "theorems: join is total, errs iff trailing slash (InvalidPath), equals lexical resolution, preserves canonical form, is associative, "
                        "parent/filename invert join; tie: the Rust PathLike functions and the Lean transliteration are run on the same inputs and compared line by line",
     },
+    "C14": {
+        "module": "VfsModel.Props.C14",
+        "namespace": "Vfs.C14",
+        "required_theorems": ["read_is_cursor", "read_no_panic", "read_past_end", "seek_is_cursor", "seek_no_panic",
+                              "write_length", "write_at", "write_before", "write_after", "write_at_end", "publish_exact"],
+        "streams": [("handle", [])],
+        "rule": "handle stream: per backend/adapter configuration (mem, phys, alt(mem), alt(phys), ovl(mem,mem), ovl(phys,mem), ovl(mem,phys)) files of 0/1/2/8191-8193 (thorough: 65535-65537, 100k-300k) bytes; "
+                "scripts of 4-40 read(n)/seek calls with n in {0,1,2,3,7,8192,65536} and offsets incl. 0, +-1, i64::MIN, i64::MAX, u64::MAX (>= 2^63 on in-memory handles only), handle used after remove_file; "
+                "1-6 write sessions per path (create / append) with writes, bounded seeks, flush and drop; every return value compared with std::io::Cursor and with the Lean model; a case is distinct by (config, request, answer)",
+        "modelled_not_verified": ["std::io::Cursor<Vec<u8>> is modelled by cursorRead/cursorSeek/cursorWrite (its documented behaviour); WritableFile IS a Cursor in the Rust code",
+                                  "std::fs::File handles of PhysicalFS and Cursor handles of EmbeddedFS are assumptions checked only by the stream",
+                                  "a Vec is shorter than 2^64 bytes (hypothesis content.length < 2^64 of the read theorems)"],
+        "assumptions": COMMON_ASSUME + ["seek on physical append handles is not compared (O_APPEND differs by design)", "zero-length writes past the end are not issued on physical handles (write(2) does not extend, Cursor pads)"],
+        "explanation": "theorems: ReadableFile.read/seek = std cursor call by call for all contents/positions/offsets, never panic; cursor write laws (length, placement, zero-fill, tail kept, append at end); publish exact. tie: handle stream (CORR vs model, PROP vs std::io::Cursor in-process)",
+    },
+    "C04": {
+        "module": "VfsModel.Props.C04",
+        "namespace": "Vfs.C04",
+        "required_theorems": ["reader_chunks", "reader_whole_file", "create_session_exact", "append_session_exact",
+                              "flush_publishes", "metadata_len", "dir_len_zero", "copy_is_identity"],
+        "streams": [("handle", [])],
+        "rule": "same handle stream as C14: after every flush and every drop the file is re-read (fresh handle, whole and in chunks of 1/2/7/8192/65536 bytes) and metadata().len compared with the bytes std::io::Cursor prescribes; session sequences create/append on one path; directories report 0",
+        "modelled_not_verified": ["std::io::copy is modelled as read_to_end + write_all", "PhysicalFS file bytes live in the host file system (assumption, compared by the stream)"],
+        "assumptions": COMMON_ASSUME,
+        "explanation": "theorems: chunked reads with any buffer sizes concatenate to the content; create session buffers exactly the bytes; append continues at the end; flush/drop publish exactly the buffer and a later reader sees it; metadata len; directories 0; io::copy identity",
+    },
 }
